@@ -298,11 +298,12 @@ Definition chk_eq (l r : name) (e : term) : bool := res_same (Some (EqC l r)) (S
 Fixpoint failing (i : N) (l : list bool) : list N :=
   match l with [] => [] | b :: r => if b then failing (N.succ i) r else i :: failing (N.succ i) r end.
 (* dense: [results] pairs every distinct real result with the bit mask of the tables (by position) that gave it *)
-Fixpoint chk_dense (i : N) (t : term) (results : list (option term * N)) (tbls : list table) : list N :=
+Definition testbit_chunks (l : list N) (i : N) : bool := N.testbit (nth (N.to_nat (i / 60)) l 0) (i mod 60).
+Fixpoint chk_dense (i : N) (t : term) (results : list (option term * list N)) (tbls : list table) : list N :=
   match tbls with
   | tb :: tbls' =>
       let rest := chk_dense (N.succ i) t results tbls' in
-      match find (fun p => N.testbit (snd p) i) results with
+      match find (fun p => testbit_chunks (snd p) i) results with
       | Some p => if res_same (simplify tb t) (fst p) then rest else i :: rest
       | None => i :: rest
       end
@@ -315,6 +316,15 @@ Definition chk_at (t : term) (tbls : list table) (cases : list (N * option term)
 Definition keep_bad {A} (l : list (A * list N)) :=
   filter (fun p => match snd p with [] => false | _ => true end) l.
 """
+
+
+def chunk_mask(m):
+  """A big bit mask as a list of 60-bit N literals (big decimal literals are slow to parse in Coq)."""
+  out = []
+  while m:
+    out.append(str(m & ((1 << 60) - 1)))
+    m >>= 60
+  return "[" + ";".join(out) + "]"
 
 
 def opt_ref(i):
@@ -369,10 +379,10 @@ class CoqBatch:
         for k, w in enumerate(which):
           masks[w] |= 1 << k
         rows.append("(%d, chk_dense 0 t%d [%s] std_tables)" % (
-            j, ti, "; ".join("(%s, %d)" % (opt_ref(i), m) for i, m in zip(results, masks))))
+            j, ti, "; ".join("(%s, %s)" % (opt_ref(i), chunk_mask(m)) for i, m in zip(results, masks))))
       # canary: a wrong expectation for the first two tables (and none for the others)
-      rows.append("(%d, chk_dense 0 (TEq n0 n3) [(Some (TEq n1 n3), 3)] (firstn 2 tables))" % len(chunk))
-      body.append("Definition std_tables := firstn %d tables." % len(self.tables))
+      rows.append("(%d, chk_dense 0 (TEq n0 n3) [(Some (TEq n1 n3), [3])] (firstn (N.to_nat 2) tables))" % len(chunk))
+      body.append("Definition std_tables := firstn (N.to_nat %d) tables." % len(self.tables))
       body.append("Definition rows : list (N * list N) := [\n  %s\n]." % ";\n  ".join(rows))
       body.append("Eval vm_compute in (keep_bad rows).")
       name = "c17_dense_%d" % n
@@ -800,7 +810,7 @@ def run(res):
   d2_small = list(d2)                              # arity <= 2
   triples = list(itertools.product(atoms, repeat=3))
   if not deep:
-    triples = r.sample(triples, 700)
+    triples = r.sample(triples, 400)
   d2_big = []
   for kn in ("And", "Or"):
     for args in triples:
@@ -810,7 +820,7 @@ def run(res):
   # ---- depth 3: And/Or over pairs of depth<=2 (arity<=2) terms
   pairs = list(itertools.product(d2_small, repeat=2))
   if not deep:
-    pairs = r.sample(pairs, 1500)
+    pairs = r.sample(pairs, 1000)
   d3 = []
   seen3 = set()
   for kn in ("And", "Or"):
